@@ -208,6 +208,7 @@ def r08_1(ctx, rep, S, D, W):
                 continue
             tags = [c[1][3][2][1] for c in row.cond if c[0] == "truth" and c[2] and c[1][0] == "op" and c[1][1] == "Eq"
                     and c[1][3][0] == "cast" and c[1][3][2][0] == "c"]
+            tags += [c[2] for c in row.cond if c[0] == "inteq" and c[3]]       # `match byte { 4 => .., 6 => .. }`
             if len(tags) == 1:
                 rtab.setdefault(tags[0], []).append([c[0] for c in calls])
         seen = set()
